@@ -211,8 +211,8 @@ func runGenerator() (map[string]string, error) {
 			}
 		}
 		for _, where := range places {
-			for _, edit := range []string{"retire", "remove", "add", "add-without-flag", "drop-flag", "add-long"} {
-				if edit == "add-long" && where.name != "middle" {
+			for _, edit := range []string{"retire", "remove", "add", "add-without-flag", "drop-flag", "add-long", "add-plus"} {
+				if (edit == "add-long" || edit == "add-plus") && where.name != "middle" {
 					continue
 				}
 				cp := make([]any, 0, len(arr)+1)
@@ -232,6 +232,10 @@ func runGenerator() (map[string]string, error) {
 						continue
 					case i == where.i && edit == "add":
 						cp = append(cp, map[string]any{js.idKey: "Verif-Added-1.0", js.depKey: false})
+					case i == where.i && edit == "add-plus":
+						// '+' is the one character of SPDX ids that text-rendering layers (HTML, URL escaping) rewrite;
+						// today only licenses.json holds such ids (GPL-2.0+), so the exception generator never met one
+						cp = append(cp, map[string]any{js.idKey: "Verif-Added-1.0+", js.depKey: false})
 					case i == where.i && edit == "add-long":
 						cp = append(cp, map[string]any{js.idKey: c12LongID, js.depKey: false})
 					case i == where.i && edit == "add-without-flag":
@@ -429,7 +433,7 @@ func init() {
 		ID:       "C12",
 		Title:    "shipped license tables = SPDX source data",
 		Explorer: "E1 complete enumeration of a finite configuration (every id of both JSON files and of the three Go tables) + real generator re-run",
-		Rule: "state = one id in one role/form; transitions = ValidateLicenses/ExtractLicenses calls on it; the generator is built in a scratch copy of the working tree and run once per scenario = (state of the output files before the run: absent / as committed / lengthened / cut short) or (one JSON entry retired / removed / added / added without a deprecation flag / stripped of its flag, at the first, a middle, the last position and right after a deprecated entry, regenerated over the committed files; for an added id longer than every listed id the library is also rebuilt with the regenerated tables and must accept the id in its role), its three outputs compared byte for byte with the committed files resp. with header + ids of the edited JSON + footer; " +
+		Rule: "state = one id in one role/form; transitions = ValidateLicenses/ExtractLicenses calls on it; the generator is built in a scratch copy of the working tree and run once per scenario = (state of the output files before the run: absent / as committed / lengthened / cut short) or (one JSON entry retired / removed / added / added without a deprecation flag / stripped of its flag / an id containing '+' added, at the first, a middle, the last position and right after a deprecated entry, regenerated over the committed files; for an added id longer than every listed id the library is also rebuilt with the regenerated tables and must accept the id in its role), its three outputs compared byte for byte with the committed files resp. with header + ids of the edited JSON + footer; " +
 			"JSON-derived sequences compared with GetLicenses/GetDeprecated/GetExceptions; lists checked pairwise disjoint and fold-unique; every license id accepted alone, every exception id accepted after WITH and rejected in 11 other forms; each table getter called, its result overwritten / filtered in place / appended to, and called again (the tables must not be reachable through what a getter returns); " +
 			"non-trivial = ids checked in the exception-rejection forms and suffix forms (where acceptance is not a plain list lookup)",
 		Assumptions: []string{"encoding/json with the generator's own field names is the reading of the SPDX JSON", "the stale cmd/*_ids.json|txt files are not produced by the current generator and are outside the claim"},
